@@ -132,6 +132,9 @@ func c19Run(c *fw.Case, n int) {
 			return
 		}
 		c.Count("streams", 1)
+		if i == 0 && c.Index%20 == 0 {
+			c.Sample(map[string]interface{}{"request": fmt.Sprint(pristine), "sequence_kind": seqKind, "stream_result": fmt.Sprint(serr), "targets_expected": len(want)})
+		}
 		c.Distinct("stream_shape", fmt.Sprintf("prefix=%d seq=%d targets=%d", prefixKind, seqKind, len(want)))
 		fail := func(key, format string, args ...interface{}) {
 			c.Violate("subscribe", key, fmt.Sprintf(format, args...)+fmt.Sprintf("\nrequest: %v\nsequence kind %d", pristine, seqKind), nil)
